@@ -36,6 +36,25 @@ S, I, B = z3.StringSort(), z3.IntSort(), z3.BoolSort()
 SV = z3.StringVal
 
 
+def ctor_env(E):
+    """callee contracts that GeminiClient.__init__ needs (TOFUDatabase(...) and create_client_context by contract: C12 / C20)"""
+    M = E.models
+    if not hasattr(E, "sqlite_db_of"):
+        from contracts import tofu_store
+        tofu_store.install(E)
+    def tofu_init(ctx, args, kw):
+        obj = args[0]
+        ctx.setf(obj, "db_path", VOpaque("path", z3.Int("db_path_id")))
+        E.sqlite_db_of(ctx)
+        return NONE
+    M[(TOFU, "__init__")] = tofu_init
+    E.contracts[f"{TOFU}.__init__"] = None
+    E.caller_contracts[f"{TOFU}.__init__"] = Contract(f"{TOFU}.__init__", result=T.none,
+                                                      ensures=[("store opened", lambda ctx, old, a, o: (ctx.setf(a[0], "db_path", VOpaque("path", z3.Int("db_path_id"))), E.sqlite_db_of(ctx), None)[2])])
+    E.caller_contracts["nauyaca.security.tls:create_client_context"] = Contract(
+        "nauyaca.security.tls:create_client_context", result=T.make(lambda c, h: VOpaque("sslctx", c.fresh_int("sslctx"))), raises=["ValueError", "OSError"])
+
+
 def add_targets(E, spec, pid):
     env = client_proto.ClientEnv(E) if not getattr(E, "_client_env", None) else E._client_env
     E._client_env = env
@@ -74,7 +93,12 @@ def add_targets(E, spec, pid):
                                   "path": VStr(z3.String("parsed.path")), "query": VStr(z3.String("parsed.query")), "fragment": VStr(""),
                                   "normalized": VStr(z3.String("parsed.normalized"))})
         return T.make(mkit)
-    E.contracts["nauyaca.utils.url:parse_url"] = Contract("nauyaca.utils.url:parse_url", ensures=[], result=purl_result, raises=["ValueError"])
+    c_parse_url = Contract("nauyaca.utils.url:parse_url", ensures=[], result=purl_result, raises=["ValueError"])
+    E.caller_contracts["nauyaca.utils.url:parse_url"] = c_parse_url
+
+    def activate():
+        """(re)install the session's view of parse_url - other targets in the same run (C19's own) may use another one"""
+        E.caller_contracts["nauyaca.utils.url:parse_url"] = c_parse_url
 
     # urllib.parse quote/unquote as uninterpreted functions (E7): whatever they compute, it is not assumed to be the identity
     uq, qq = z3.Function("unquote", S, S), z3.Function("urllib_quote", S, S)
@@ -150,17 +174,7 @@ def add_targets(E, spec, pid):
     # ---- symbolic client: the state the REAL GeminiClient.__init__ leaves, for symbolic constructor arguments --------
     E.inline.add(f"{CL}.__init__")
 
-    def tofu_init(ctx, args, kw):
-        obj = args[0]
-        ctx.setf(obj, "db_path", VOpaque("path", z3.Int("db_path_id")))
-        E.sqlite_db_of(ctx)
-        return NONE
-    M[(TOFU, "__init__")] = tofu_init
-    E.contracts[f"{TOFU}.__init__"] = None
-    E.caller_contracts[f"{TOFU}.__init__"] = Contract(f"{TOFU}.__init__", result=T.none,
-                                                      ensures=[("store opened", lambda ctx, old, a, o: (ctx.setf(a[0], "db_path", VOpaque("path", z3.Int("db_path_id"))), E.sqlite_db_of(ctx), None)[2])])
-    E.caller_contracts["nauyaca.security.tls:create_client_context"] = Contract(
-        "nauyaca.security.tls:create_client_context", result=T.make(lambda c, h: VOpaque("sslctx", c.fresh_int("sslctx"))), raises=["ValueError", "OSError"])
+    ctor_env(E)
     E.use_assumption("GeminiClient objects are those the real __init__ produces for arbitrary constructor arguments (TOFUDatabase(...) and create_client_context by contract: C12/C20)")
 
     ANY = "model:anycontainer"
@@ -250,7 +264,7 @@ def add_targets(E, spec, pid):
         "C13": "[C13] the transport is closed on every exit after the connection was made; a returned value is the response the protocol resolved",
         "C16": "[C16] at most one connection, to the host and port parse_url reports for the URL",
         "C18": "[C18] the protocol object of a fetch decodes bodies exactly when the client was created with decode_body=True",
-        "C17": "[C17] the request line of a fetch is the normalised form of the URL asked for, character for character (no re-quoting, no decoding)",
+        "C17": "[C17,C19] the request line of a fetch is the normalised form of the URL asked for, character for character (no re-quoting, no decoding)",
     }
 
     def clause_posts(hostf, portf):
@@ -260,6 +274,7 @@ def add_targets(E, spec, pid):
 
     # ---- _get_single ----------------------------------------------------------------------------------------
     def gs_args(ctx):
+        activate()
         cl, db = mk_client(ctx)
         return [cl, VStr(z3.String("url"))], {}
 
@@ -267,6 +282,7 @@ def add_targets(E, spec, pid):
 
     # ---- upload -------------------------------------------------------------------------------------------------
     def up_args(ctx):
+        activate()
         cl, db = mk_client(ctx)
         content = mk(ctx, T.union(T.bytes(), T.str()), "content", True)
         return [cl, VStr(z3.String("url")), content, VStr(z3.String("mime_type")), mk(ctx, T.opt(T.str()), "token", True)], {}
@@ -289,7 +305,7 @@ def add_targets(E, spec, pid):
     spec.targets += [(f"{CL}._get_single", None), (f"{CL}.upload", None)]
     # the [C16] clause (one connection, to the host/port parse_url reports = the pin key) is part of C03's claim as well:
     # a pin checked for another host than the one connected to protects nothing
-    tags = {"C03": ("[C03]", "[C03,", "[C16]"), "C11": ("[C11]", "requires/C11", "[C11,"), "C13": ("[C13]", "[C13,", "[INV,C13]"), "C18": ("[C18]",), "C17": ("[C17]",)}.get(pid)
+    tags = {"C03": ("[C03]", "[C03,", "[C16]"), "C11": ("[C11]", "requires/C11", "[C11,"), "C13": ("[C13]", "[C13,", "[INV,C13]"), "C18": ("[C18]",), "C17": ("[C17",), "C19": ("C19]",)}.get(pid)
     if tags:
         prev = getattr(spec, "keep", None)
         sess = (f"{CL}._get_single/", f"{CL}.upload/")
